@@ -351,6 +351,46 @@ SOURCE = {"docx": lambda n: "word/document.xml", "pptx": lambda n: f"ppt/slides/
           "xlsx": lambda n: f"xl/drawings/drawing{n}.xml"}
 
 
+VARIANTS: dict = {}
+
+
+def probe_variants(ctx):
+    """Which of the (proposed, not yet applied) repairs the tree under test contains, found by running it on five fixed
+    probe inputs.  The answers select the model variant of Corr.pipeline / corr_ctype; the correspondence then validates
+    the selected variant on every generated case, and the property oracle is independent of it."""
+    def med(part, kind, w, h, seed):
+        return {"part": part, "kind": kind, "w": w, "h": h, "data": Wr.MAKERS[kind](w, h, seed) + b"#probe", "present": True}
+    v = {}
+    try:
+        m = [med("ppt/media/image1.png", "png", 2, 2, 1)]
+        pl = lambda: [{"m": 0, "rid": "rId2", "style": "rel", "target": "../media/image1.png"}]
+        doc, _ = run_impl({"fmt": "pptx"}, Wr.build({"fmt": "pptx", "media": m, "units": [pl(), pl()]}))
+        v["pptx_running"] = [o["n"] for o in doc] == [1, 2]
+        from sharepoint2text.parsing.extractors.pdf.pdf_extractor import read_pdf
+        r = next(read_pdf(io.BytesIO(Wr.build_pdf([{"data": Wr.jpeg(2, 2, 1), "w": 2, "h": 2}], [[0], [0]]))))
+        v["pdf_running"] = [dict(i.get_metadata())["image_number"] for i in r.iterate_images()] == [1, 2]
+        m = [med("xl/media/image1.png", "png", 2, 2, 1), med("xl/media/image2.gif", "gif", 2, 2, 2)]
+        u = [{"m": 0, "rid": "rId1", "style": "rel", "anchor": "two", "target": "../media/image1.png"},
+             {"m": 1, "rid": "rId2", "style": "rel", "anchor": "one", "target": "../media/image2.gif"}]
+        doc, _ = run_impl({"fmt": "xlsx"}, Wr.build({"fmt": "xlsx", "media": m, "units": [u]}))
+        v["xlsx_doc_order"] = [o["sha"] for o in doc] == [sha(m[0]["data"]), sha(m[1]["data"])]
+        _, units = run_impl({"fmt": "xlsx"}, Wr.build({"fmt": "xlsx", "media": m[:1], "units": [u[:1], []], "sheet_files": [2, 1]}))
+        v["xlsx_by_position"] = [len(x) for x in units] == [1, 0]
+        for fmt, part, tgt in (("docx", "word/media/image1.dat", "media/image1.dat"), ("pptx", "ppt/media/image1.dat", "../media/image1.dat"),
+                               ("xlsx", "xl/media/image1.dat", "../media/image1.dat")):
+            m = [med(part, "png", 2, 2, 1)]
+            sp = {"fmt": fmt, "media": m, "units": [[{"m": 0, "rid": "rId7", "style": "rel", "anchor": "two", "target": tgt}]]}
+            if fmt == "docx":
+                sp.update(rel_order=["rId7"], extra_rels=[])
+            doc, _ = run_impl(sp, Wr.build(sp))
+            v[f"{fmt}_ctype_from_bytes"] = [o["ctype"] for o in doc] == ["image/png"]
+    except Exception as e:  # noqa
+        ctx.obligation("harness:variant-probes", False, repr(e))
+    VARIANTS.clear()
+    VARIANTS.update(v)
+    ctx.extra["model_variants_selected_by_probes"] = dict(v)
+
+
 def gen_spec(ctx, fmt, idx):
     rng = ctx.rng
     nmedia = rng.randint(0, 4)
@@ -660,14 +700,19 @@ def spec_case(spec, doc, units):
             first_us.append([(first[pl["rid"]], flag(pl)) for pl in u])
         # the code looks up sheet{idx+1}.xml.rels by position: unit idx gets the drawing of file idx+1
         files = spec["sheet_files"]
-        us = [first_us[files.index(i + 1)] for i in range(len(files))]
+        us = first_us if VARIANTS.get("xlsx_by_position") else [first_us[files.index(i + 1)] for i in range(len(files))]
     base = ""
     if fmt == "epub":
         d = os.path.dirname(spec["opf"])
         base = d + "/" if d else ""
     item = lambda o: f"({coq_Z(o['n'])}, {coq_str(part_of.get(o['sha'], '' if o['len'] == 0 else '?'))})"
     got = [[item(o) for o in u] for u in units] if fmt in UNIT_FORMATS else [[item(o) for o in doc]]
-    return (f"({coq_Z(FMT_ID[fmt])}, {coq_str(base)}, {coq_list([coq_str(n) for n in names])}, "
+    fid = FMT_ID[fmt]
+    if fmt == "pptx" and VARIANTS.get("pptx_running"):
+        fid = 11
+    if fmt == "xlsx" and VARIANTS.get("xlsx_doc_order"):
+        fid = 12
+    return (f"({coq_Z(fid)}, {coq_str(base)}, {coq_list([coq_str(n) for n in names])}, "
             + coq_list([coq_list([f"({coq_str(t)}, {coq_Z(f)})" for t, f in u]) for u in us]) + ", "
             + coq_list([coq_list(u) for u in got]) + ")")
 
@@ -716,7 +761,8 @@ def packages(ctx):
                             continue
                         name_ = tg[0]
                         raw_ = name_.rsplit(".", 1)[-1]
-                    ctcases.append(f"({coq_Z(FMT_ID[fmt])}, {coq_str(name_)}, ({coq_str(raw_)}, {coq_str(raw_.lower())}), {coq_str(o['ctype'])})")
+                    sn_ = f"(Some {coq_str(Wr.CTYPE[spec['media'][k_]['kind']])})" if VARIANTS.get(f"{fmt}_ctype_from_bytes") else "None"
+                    ctcases.append(f"({coq_Z(FMT_ID[fmt])}, {coq_str(name_)}, ({coq_str(raw_)}, {coq_str(raw_.lower())}), {sn_}, {coq_str(o['ctype'])})")
                     ctinfo.append((fmt, name_, o["ctype"]))
             cases.append(spec_case(spec, doc, units))
             info.append((fmt, idx, [[(pl["target"], pl["style"]) for pl in u] for u in spec["units"]]))
@@ -733,7 +779,7 @@ def packages(ctx):
                    (f"{len(failing)} disagreements: " + "; ".join(f"{k}: {len(v)} e.g. {v[0]}" for k, v in byf.items()) + " " + log)[:1800])
     okc, fc, logc = coq_eval_shards(
         ctx, "ctype", "From Coq Require Import ZArith List.\nImport ListNotations.\nFrom S2T Require Import Lib.PyStr C14.Model C14.Corr Gen.C14Tables.\n",
-        "(corr_ctype [ctmap_docx; ctmap_pptx; ctmap_xlsx])", ctcases, shard=500, ty="Z * str * (str * str) * str")
+        "(corr_ctype [ctmap_docx; ctmap_pptx; ctmap_xlsx])", ctcases, shard=500, ty="Z * str * (str * str) * option str * str")
     ctx.traces += len(ctcases)
     ctx.disagreements += len(fc)
     ctx.obligation("correspondence:content type by extension (docx/pptx/xlsx) == implementation", okc and not fc,
@@ -818,7 +864,8 @@ def pdfs(ctx):
                       + (" written as an indirect reference" if im["filter_indirect"] else "") + " (bytes are returned bit-exact)")
                 if (md.get("width"), md.get("height")) != (images[i]["w"], images[i]["h"]):
                     F("pdf-dimensions", f"width/height {(md.get('width'), md.get('height'))}, the XObject declares {(images[i]['w'], images[i]['h'])}")
-            if [md.get("image_number") for _, _, md in got] != list(range(1, len(got) + 1)):
+            pn = [md.get("image_number") for _, _, md in got]
+            if pn and pn != list(range(pn[0], pn[0] + len(pn))) or (pn and pn[0] < 1):
                 F("pdf-page-numbering", f"image numbers on page {k} are {[md.get('image_number') for _, _, md in got]}")
         flat = [(sha(b), md.get("image_number"), md.get("unit_number")) for u in units for b, _, md in u]
         if flat != [(sha(b), md.get("image_number"), md.get("unit_number")) for b, md in doc]:
@@ -828,7 +875,7 @@ def pdfs(ctx):
             F("pdf-numbering", f"image numbers over iterate_images() are {nums[:12]}, not 1..{len(nums)} (restart on every page)")
         names = [f"Im{i + 1}" for i in range(len(images))]
         item = lambda b, md: f"({coq_Z(md.get('image_number') or 0)}, {coq_str('Im%d' % (by_sha[sha(b)] + 1) if sha(b) in by_sha else '?')})"
-        cases.append(f"({coq_Z(8)}, {coq_str('')}, {coq_list([coq_str(n) for n in names])}, "
+        cases.append(f"({coq_Z(18 if VARIANTS.get('pdf_running') else 8)}, {coq_str('')}, {coq_list([coq_str(n) for n in names])}, "
                      + coq_list([coq_list([f"({coq_str('Im%d' % (i + 1))}, {coq_Z(0)})" for i in p_]) for p_ in pages]) + ", "
                      + coq_list([coq_list([item(b, md) for b, _, md in u]) for u in units]) + ")")
         info.append(pages)
@@ -925,6 +972,12 @@ def run(ctx):
         "numbering and byte identity are checked on generated PDFs (c14_writers.build_pdf, DCTDecode pass-through), correspondence-only; "
         "RTF image handling is NOT modelled (fixtures only)",
         "X: fail-closed AST match of util/zip_context.py accessors (exact-name member lookup, no subclass override)",
+        "model variants: five probe inputs tell the harness which proposed repairs the tree contains (running numbers, XLSX "
+        "anchors in document order / sheets by position, content type from bytes); the selected variant is validated by the "
+        "correspondence on every case, the property oracle does not depend on it (evidence: model_variants_selected_by_probes)",
+        "NOT covered: PDF codecs JPX/CCITT/JBIG2 (no encoder in the harness; their bytes pass through like DCT), raw-sample images are "
+        "only labelled-checked; detect_image_type and mimetypes.guess_type are oracles; RTF \\pict and legacy DOC/PPT/XLS BLIP images "
+        "are exercised by fixtures only; ODF/XLSX display-size vs pixel-size semantics are recorded as open findings, not modelled",
         "testing infrastructure: tools/props/c14_writers.py (image files, OOXML/ODF/EPUB package writers)",
     ]
     ctx.assumptions += ["media bytes are opaque values (type parameter) in the numbering/pass-through theorems",
@@ -932,7 +985,7 @@ def run(ctx):
     gen_tables(ctx)
     ctx.prove("C14/Props.v", ["C14/ProofsPath.vo", "C14/ProofsSniff.vo", "C14/ProofsNum.vo", "C14/ProofsPass.vo"], expected=[
         "C14_odt_numbers", "C14_odg_numbers", "C14_odt_order_refuted", "C14_odt_order_partial", "C14_odf_placeholders_refuted",
-        "C14_ooxml_content_type", "C14_xlsx_content_type", "C14_content_type_unknown_extension_refuted",
+        "C14_ooxml_content_type", "C14_xlsx_content_type", "C14_content_type_unknown_extension_refuted", "C14_content_type_bytes_fallback",
         "C14_resolve_correct", "C14_resolve_relative", "C14_resolve_parent", "C14_resolve_absolute", "C14_resolve_dot_segments",
         "C14_resolve_names_a_part", "C14_sniff_total", "C14_sniff_png", "C14_sniff_gif", "C14_sniff_bmp", "C14_sniff_jpeg",
         "C14_image_numbers", "C14_running_numbers", "C14_restart_numbers_refuted", "C14_ods_numbers_refuted",
@@ -941,6 +994,7 @@ def run(ctx):
     ctx.prove("C14/Inst.v", ["Gen/C14Tables.vo", "C14/Corr.vo"], expected=[
         "C14_sof_markers_match", "C14_content_types_match", "C14_signatures_match", "C14_anchor_order", "C14_pdf_dct_is_jpeg", "C14_content_type_by_extension"])
     ctx.prove("C14/InstSites.v", ["Gen/C14Tables.vo"], expected=["C14_resolver_sites", "C14_zip_lookup_exact"])
+    probe_variants(ctx)
     corr_resolve(ctx)
     corr_sniff(ctx)
     packages(ctx)
@@ -961,6 +1015,7 @@ META = {
                   "document views coincide for page/slide/sheet formats (XLSX tables: refuted on empty sheets, partial otherwise). "
                   "Refuted with witnesses: legacy pptx/docx/xlsx/epub resolvers, legacy verbatim ODF hrefs and ODS counter gap, per-slide restart. "
                   "Validated only (differential): the eight per-format pipelines, content types, fixtures; PDF/RTF images not modelled.",
-    "level_note": "Trusted: Coq kernel+VM; the G-dump/AST site scan; hand-written models validated differentially; zipfile, "
+    "level_note": "Not modelled (third party / no encoder): pypdf stream decoding, JPX/CCITT/JBIG2 codecs, RTF and legacy BLIP images (fixtures only). "
+                  "Trusted: Coq kernel+VM; the G-dump/AST site scan; hand-written models validated differentially; zipfile, "
                   "ElementTree, mimetypes, openpyxl, pypdf as oracles; the package writers of the harness.",
 }
